@@ -473,8 +473,9 @@ func checkDate(cs *Case, o *obs) []Problem {
 	}
 	var key string
 	switch {
-	case cs.QKind == "iso-utc" || cs.QKind == "iso-foreign-offset":
-		// the literal carries its own UTC offset, different from the environment zone's
+	case (cs.QKind == "iso-utc" || cs.QKind == "iso-foreign-offset") && answersInLiteralsOwnOffset(cs.Value, t, six.res):
+		// the literal carries its own UTC offset, different from the environment zone's, and all six
+		// operators answer as a comparison of calendar days in that offset
 		key = "date:calendar-day:query-literal-with-own-offset"
 	case dayLen != 24*time.Hour && !t.Before(minT(end, assumedEnd)) && t.Before(maxT(end, assumedEnd)):
 		// the instant lies between the true end of the day and start+24h
@@ -499,6 +500,24 @@ func checkDate(cs *Case, o *obs) []Problem {
 		key = fmt.Sprintf("date:calendar-day:%s:ops=%s:day-length=%s:query=%s", where, strings.Join(ops, ","), fmtDur(dayLen), cs.QKind)
 	}
 	return append(ps, Problem{Key: key, What: "dates must be compared by calendar day in the environment's timezone\n" + desc})
+}
+
+// answersInLiteralsOwnOffset reports whether the six results are exactly the comparison of calendar
+// days taken in the UTC offset written in the ISO literal (instead of the environment's zone).
+func answersInLiteralsOwnOffset(literal string, t time.Time, res map[string]bool) bool {
+	lit, err := time.Parse(time.RFC3339, literal)
+	if err != nil {
+		return false
+	}
+	own := lit.Location()
+	c := dayOf(t, own).cmp(dayOf(lit, own))
+	want := map[string]bool{"<": c < 0, "=": c == 0, ">": c > 0, "<=": c <= 0, ">=": c >= 0, "!=": c != 0}
+	for _, op := range cmpOps {
+		if res[op] != want[op] {
+			return false
+		}
+	}
+	return true
 }
 
 // dayClass folds the length of a day into shorter/longer than 24 h (23 h, 23 h 30 min... are one class).
